@@ -135,12 +135,14 @@ pub struct MemCfg {
     pub dropre: bool,
     /// build the cache with an event listener (without one the notifications are not observed)
     pub listener: bool,
+    /// install the disk-tier pipe (without it, and without a listener, the cache takes its "nobody is watching" paths)
+    pub pipe: bool,
 }
 
 impl MemCfg {
     pub fn line(&self) -> String {
         format!(
-            "cfg domain=mem algo={} impl={} shards={} cap={} keys={} hmode={} hp_bits={} s3_small_bits={} s3_ghost_bits={} s3_thr={} lfu_window_bits={} lfu_protected_bits={} cm_rows={} cm_buckets={} cb={} dropre={} listener={}",
+            "cfg domain=mem algo={} impl={} shards={} cap={} keys={} hmode={} hp_bits={} s3_small_bits={} s3_ghost_bits={} s3_thr={} lfu_window_bits={} lfu_protected_bits={} cm_rows={} cm_buckets={} cb={} dropre={} listener={} pipe={}",
             self.algo,
             self.imp,
             self.shards,
@@ -158,6 +160,7 @@ impl MemCfg {
             self.cb.name(),
             self.dropre as u8,
             self.listener as u8,
+            self.pipe as u8,
         )
     }
 
@@ -181,6 +184,7 @@ impl MemCfg {
             cb: CbMode::parse(&g("cb", "none")),
             dropre: g("dropre", "0") == "1",
             listener: g("listener", "1") == "1",
+            pipe: g("pipe", "1") == "1",
         }
     }
 
@@ -423,7 +427,8 @@ impl MemExec {
             .with_weighter(|_k: &u64, v: &Val| v.weight)
             .with_filter(|_k: &u64, v: &Val| !v.phantom);
         let b = if cfg.listener { b.with_event_listener(Arc::new(Listener { log: leaves.clone(), re: re.clone() })) } else { b };
-        let cache: MCache = b.build::<CacheProperties>().with_pipe(Arc::new(RecPipe { log: piped.clone() }));
+        let cache: MCache = b.build::<CacheProperties>();
+        let cache: MCache = if cfg.pipe { cache.with_pipe(Arc::new(RecPipe { log: piped.clone() })) } else { cache };
         if cfg.dropre {
             let c = cache.clone();
             *DROP_HOOK.lock() = Some(Arc::new(move |k: u64| {
@@ -511,7 +516,7 @@ impl MemExec {
             // nothing is findable any more: every record still resident must have been notified just now
             format!("op=clear dropped=1 ret=unit leaves={} piped=- usage=0 entries=0 has=-", show_list(leaves))
         } else {
-            "op=clear dropped=1 ret=unit piped=- usage=0 entries=0 has=-".to_string()
+            if self.cfg.pipe { "op=clear dropped=1 ret=unit piped=- usage=0 entries=0 has=-".to_string() } else { "op=clear dropped=1 ret=unit usage=0 entries=0 has=-".to_string() }
         };
         crate::CUR_OP.lock().clear();
         let mut t = crate::CUR_TRACE.lock();
@@ -609,8 +614,10 @@ impl MemExec {
             line.push_str(if self.cache.contains(&0) { "t" } else { "f" });
         } else if self.cfg.listener {
             let _ = write!(line, " ret={ret} leaves={} piped={}", show_list(leaves), show_list(piped));
-        } else {
+        } else if self.cfg.pipe {
             let _ = write!(line, " ret={ret} piped={}", show_list(piped));
+        } else {
+            let _ = write!(line, " ret={ret}");
         }
         let has: Vec<String> = (0..self.cfg.keys)
             .chain(if reentrant { 1000..1003 } else { 0..0 })
@@ -690,6 +697,7 @@ pub fn gen_cfg(rng: &mut Rng, mode: &str, algo: &str) -> MemCfg {
         cb: CbMode::None,
         dropre: false,
         listener: true,
+        pipe: true,
     }
     .fix()
 }
@@ -755,6 +763,8 @@ pub fn run_case(rng: &mut Rng, mode: &str, algo: &str, maxops: u64) -> String {
         cfg.shards = 1;
         cfg.dropre = true;
         cfg.listener = rng.chance(1, 2);
+        // without a listener, half of the caches have no pipe either
+        cfg.pipe = cfg.listener || rng.chance(1, 2);
     }
     let mut out = cfg.line();
     out.push('\n');
